@@ -252,3 +252,13 @@ def run(facts, rep, ctx):
     from . import round2
     round2.ao1(facts, rep, 'alignment::pairwise::banded::Aligner::<F>::compute_alignment')
 
+
+
+_run_before_round6 = run
+
+
+def run(facts, rep, ctx):
+    """rules added after the fifth seeding round (rules/round6.py)"""
+    _run_before_round6(facts, rep, ctx)
+    from . import round6
+    round6.cl1(facts, rep, ['alignment::pairwise::banded::Aligner'])
